@@ -21,7 +21,12 @@ import (
 	"verif/simkit"
 )
 
-const verifDir = "/verif"
+var verifDir = func() string {
+	if d := os.Getenv("VERIF_DIR"); d != "" {
+		return d
+	}
+	return "/verif"
+}()
 
 func envU64(name string, def uint64) uint64 {
 	if s := os.Getenv(name); s != "" {
